@@ -29,7 +29,10 @@ class Unknown(Exception):
 
 
 class Engine:
-    def __init__(self, bv=None, fp=False, timeout_s=None, query_timeout_ms=60000):
+    def __init__(self, bv=None, fp=False, timeout_s=None, query_timeout_ms=60000, lazy=False, shard=None):
+        self.shard = shard   # (i, n): in lazy mode only paths with ordinal % n == i are sent to the solver
+        self.skipped = 0
+        self.lazy = lazy     # lazy: do not test branch feasibility; infeasible paths die at the final query (loop-free code only)
         self.bv = bv
         self.fp = fp
         self.solver = z3.Solver()
@@ -50,10 +53,24 @@ class Engine:
     def mk(self, name, lo, hi):
         """A fresh symbolic integer with lo <= v <= hi (part of the precondition)."""
         if self.concrete is not None:
-            v = self.concrete[name]
+            v = self.concrete.get(name, lo)
             if not (lo <= v <= hi):
                 raise Infeasible()
             return v
+        if self.bv and lo >= 0:
+            # narrow variable, zero-extended: keeps the SAT encoding small (domain implicit in the width)
+            k = max(1, int(hi).bit_length())
+            raw = z3.BitVec(name, k)
+            self.vars[name] = raw
+            v = z3.ZeroExt(self.bv - k, raw) if k < self.bv else raw
+            if lo > 0:
+                self.pre.append(z3.UGE(raw, z3.BitVecVal(lo, k)))
+            if hi != (1 << k) - 1:
+                self.pre.append(z3.ULE(raw, z3.BitVecVal(hi, k)))
+            si = SymInt(self, v)
+            if hi - lo < 1024:
+                si.dom = (lo, hi, raw, k)
+            return si
         v = z3.BitVec(name, self.bv) if self.bv else z3.Int(name)
         self.vars[name] = v
         self.pre.append(z3.And(v >= lo, v <= hi))
@@ -61,7 +78,7 @@ class Engine:
 
     def mkbool(self, name):
         if self.concrete is not None:
-            return bool(self.concrete[name])
+            return bool(self.concrete.get(name, False))
         v = z3.Bool(name)
         self.vars[name] = v
         return SymBool(self, v)
@@ -107,6 +124,10 @@ class Engine:
         if self.pos < len(self.dec):
             take = self.dec[self.pos]
             assert isinstance(take, bool), "non-deterministic harness"
+        elif self.lazy:
+            self.work.append(self.dec[: self.pos] + [False])
+            take = True
+            self.dec.append(take)
         else:
             can_t, _ = self.check(cond)
             can_f, _ = self.check(z3.Not(cond))
@@ -188,6 +209,9 @@ class Engine:
                     exc = e
                     post = False
                 self.paths += 1
+                if self.shard is not None and self.lazy and (self.paths - 1) % self.shard[1] != self.shard[0]:
+                    self.skipped += 1
+                    continue
                 if isinstance(post, SymBool):
                     post = post.z
                 else:
@@ -208,7 +232,7 @@ class Engine:
                         if z3.is_bool(mv):
                             model[name] = z3.is_true(mv)
                         elif self.bv:
-                            model[name] = mv.as_signed_long()
+                            model[name] = mv.as_long() if mv.size() < self.bv else mv.as_signed_long()
                         else:
                             model[name] = mv.as_long()
                     if exc is not None:
@@ -343,6 +367,8 @@ def fdiv(e, a, b):
 
 
 class SymInt:
+    dom = None   # (lo, hi, raw variable) for variables of small domain; lets float division by a constant be table-ised
+
     def __init__(self, e, z):
         self.e, self.z = e, z
 
@@ -684,7 +710,19 @@ def _rne():
     return _RNE
 
 
+def _table(raw, k, lo, hi, f):
+    """Balanced If-tree mapping the k-bit variable raw (lo..hi) to the Float64 constants f(v)."""
+    def build(a, b):
+        if a == b:
+            return z3.FPVal(f(a), z3.Float64())
+        mid = (a + b) // 2
+        return z3.If(z3.ULE(raw, z3.BitVecVal(mid, k)), build(a, mid), build(mid + 1, b))
+    return build(lo, hi)
+
+
 class SymFloat:
+    src = None   # (lo, hi, raw, bits) when this float is the exact conversion of a small-domain integer variable
+
     def __init__(s, e, z):
         s.e, s.z = e, z
 
@@ -692,8 +730,11 @@ class SymFloat:
     def from_int(i):
         e = i.e
         if e.bv:
-            return SymFloat(e, z3.fpSignedToFP(_rne(), i.z, z3.Float64()))
-        return SymFloat(e, z3.fpToFP(_rne(), z3.ToReal(i.z), z3.Float64()))
+            f = SymFloat(e, z3.fpSignedToFP(_rne(), i.z, z3.Float64()))
+        else:
+            f = SymFloat(e, z3.fpToFP(_rne(), z3.ToReal(i.z), z3.Float64()))
+        f.src = i.dom
+        return f
 
     @staticmethod
     def lift(e, x):
@@ -734,6 +775,16 @@ class SymFloat:
     __rmul__ = __mul__
 
     def __truediv__(s, o):
+        if isinstance(o, (int, float)) and not isinstance(o, bool):
+            of = float(o)
+            m, ex = math.frexp(of)
+            if of != 0.0 and abs(m) == 0.5 and abs(ex) < 500:
+                # division by a power of two == multiplication by its (exact) reciprocal, bit for bit
+                return SymFloat(s.e, z3.fpMul(_rne(), s.z, z3.FPVal(1.0 / of, z3.Float64())))
+            if s.src is not None and of != 0.0:
+                # small-domain integer / constant: table of CPython's own quotients (exact by construction)
+                lo, hi, raw, k = s.src
+                return SymFloat(s.e, _table(raw, k, lo, hi, lambda v: float(v) / of))
         return s._bin(o, lambda a, b: z3.fpDiv(_rne(), a, b))
 
     def __rtruediv__(s, o):
